@@ -102,7 +102,7 @@ class YamlDocument(HierDictDocument):
 
         self._from_unicode_handlers[Double] = self._ret_number
         self._from_unicode_handlers[Boolean] = self._ret_bool
-        self._from_unicode_handlers[Integer] = self._ret_number
+        self._from_unicode_handlers[Integer] = self._ret_integer
 
         self._to_unicode_handlers[Double] = self._ret
         self._to_unicode_handlers[Boolean] = self._ret
@@ -139,6 +139,16 @@ class YamlDocument(HierDictDocument):
         if isinstance(value, NON_NUMBER_TYPES):
             raise ValidationError(value)
         if value in (True, False):
+            return int(value)
+        return value
+
+    def _ret_integer(self, cls, value):
+        value = self._ret_number(cls, value)
+        if isinstance(value, float):
+            # 2.0 and 2e3 do denote integers, 2.5, inf and nan don't.
+            if value != value or value in (float('inf'), float('-inf')) \
+                                                or value != int(value):
+                raise ValidationError(value)
             return int(value)
         return value
 
